@@ -251,6 +251,84 @@ func runCheck(o checkOpts) int {
 		}(i, u)
 	}
 	wg.Wait()
+	// Dependency closure: verification is modular, so a unit of this property that calls a
+	// function or interface method by contract relies on that contract whatever property
+	// it was written for. Every unit whose contract is relied on (transitively) is verified
+	// in this run as well, with all its clauses; a change inside a helper that is harmless
+	// for the property the helper was attributed to, but not for a caller serving this
+	// one, then fails here too.
+	depNames := map[string]bool{}
+	if o.only == "" {
+		byPC := map[*ProcContract][]*Unit{}
+		for _, path := range sortedKeys(db.files) {
+			pkg, err := ld.Load(path)
+			if err != nil {
+				continue
+			}
+			us, _ := unitsOf(ld, db, pkg, db.files[path], "*")
+			root := map[*ast.FuncDecl]*ProcContract{}
+			for _, u := range us {
+				if u.Decl != nil && u.Lit == nil && u.Proc != nil {
+					root[u.Decl] = u.Proc
+				}
+			}
+			for _, u := range us {
+				switch {
+				case u.Lit != nil && u.Outer != nil:
+					if r := root[u.Outer]; r != nil {
+						byPC[r] = append(byPC[r], u)
+					}
+				case u.Proc != nil:
+					byPC[u.Proc] = append(byPC[u.Proc], u)
+				}
+			}
+		}
+		have := map[string]bool{}
+		for _, u := range units {
+			have[u.Name] = true
+		}
+		done := map[*ProcContract]bool{}
+		frontier := results
+		for round := 0; round < 8; round++ {
+			var add []*Unit
+			for _, r := range frontier {
+				if r == nil {
+					continue
+				}
+				for _, pc := range r.Uses {
+					if done[pc] {
+						continue
+					}
+					done[pc] = true
+					for _, u := range byPC[pc] {
+						if !have[u.Name] {
+							have[u.Name] = true
+							depNames[u.Name] = true
+							add = append(add, u)
+						}
+					}
+				}
+			}
+			if len(add) == 0 {
+				break
+			}
+			sort.Slice(add, func(i, j int) bool { return add[i].Name < add[j].Name })
+			more := make([]*UnitResult, len(add))
+			for i, u := range add {
+				wg.Add(1)
+				sem <- struct{}{}
+				go func(i int, u *Unit) {
+					defer wg.Done()
+					defer func() { <-sem }()
+					more[i] = verifyUnitRepair(ld, db, specs, u, "")
+				}(i, u)
+			}
+			wg.Wait()
+			units = append(units, add...)
+			results = append(results, more...)
+			frontier = more
+		}
+	}
 	var obs []*Oblig
 	assumed := map[string]bool{}
 	perUnit := map[string]int{}
@@ -434,6 +512,10 @@ func runCheck(o checkOpts) int {
 	}
 	fnList := make([]string, 0, len(perUnit))
 	for u, n := range perUnit {
+		if depNames[u] {
+			fnList = append(fnList, fmt.Sprintf("%s (%d) [dependency: its contract is relied on by a unit of this property]", u, n))
+			continue
+		}
 		fnList = append(fnList, fmt.Sprintf("%s (%d)", u, n))
 	}
 	sort.Strings(fnList)
